@@ -35,8 +35,19 @@ _ctr = itertools.count(1)
 _LITERAL = (ast.Constant,)
 
 
+def _closed_lambda(e: ast.AST) -> bool:
+    if not isinstance(e, ast.Lambda) or e.args.vararg or e.args.kwarg or e.args.defaults or e.args.kw_defaults:
+        return False
+    import builtins as _b
+    params = {a.arg for a in e.args.args + e.args.kwonlyargs}
+    inner_bound = {n.id for n in ast.walk(e.body) if isinstance(n, ast.Name) and isinstance(n.ctx, ast.Store)}
+    return all(n.id in params or n.id in inner_bound or hasattr(_b, n.id) for n in ast.walk(e.body) if isinstance(n, ast.Name) and isinstance(n.ctx, ast.Load))
+
+
 def _is_literal(e: ast.AST) -> bool:
     if isinstance(e, ast.Constant):
+        return True
+    if _closed_lambda(e):
         return True
     if isinstance(e, ast.UnaryOp) and isinstance(e.op, (ast.USub, ast.UAdd)) and isinstance(e.operand, ast.Constant):
         return True
@@ -119,6 +130,11 @@ class _StmtCanon(ast.NodeTransformer):
     # --- expressions
     def visit_Call(self, n):
         self.generic_visit(n)
+        if isinstance(n.func, ast.Lambda) and not n.keywords and len(n.args) == len(n.func.args.args) and not n.func.args.vararg \
+                and not n.func.args.kwonlyargs and all(isinstance(a, (ast.Name, ast.Constant)) for a in n.args):
+            # (lambda c: body)(x) -> body[c := x]
+            m = {p.arg: a for p, a in zip(n.func.args.args, n.args)}
+            return self.visit(ast.copy_location(_Subst(m).visit(copy.deepcopy(n.func.body)), n))
         if isinstance(n.func, ast.Name) and n.func.id == "getattr" and len(n.args) == 2 and not n.keywords \
                 and isinstance(n.args[1], ast.Constant) and isinstance(n.args[1].value, str) and n.args[1].value.isidentifier():
             return ast.copy_location(ast.Attribute(value=n.args[0], attr=n.args[1].value, ctx=ast.Load()), n)
@@ -226,7 +242,9 @@ class _StmtCanon(ast.NodeTransformer):
         items = None
         src = it.func.value if isinstance(it, ast.Call) and isinstance(it.func, ast.Attribute) and it.func.attr == "items" and not it.args else it
         lit = src
-        if isinstance(src, ast.Name):
+        if isinstance(src, ast.Name) and src.id in self.consts and src.id not in self.shadow:
+            lit = self.consts[src.id]
+        elif isinstance(src, ast.Name):
             # a local bound exactly once, by a literal-shaped display, in the statements before the loop
             defs = [s for s in before if isinstance(s, ast.Assign) and len(s.targets) == 1 and isinstance(s.targets[0], ast.Name) and s.targets[0].id == src.id]
             stores = [n for s in before for n in ast.walk(s) if isinstance(n, ast.Name) and n.id == src.id and isinstance(n.ctx, ast.Store)]
@@ -245,7 +263,7 @@ class _StmtCanon(ast.NodeTransformer):
                 return None
             kname, vname = st.target.elts[0].id, st.target.elts[1].id
             # the values are evaluated when the display is built: only names / constants may be substituted textually
-            if not all(isinstance(v, (ast.Name, ast.Constant)) for v in lit.values):
+            if not all(_pure_elem(v) for v in lit.values):
                 return None
             # a value name must not be rebound between the display and the loop body
             rebound = _assigned_names(st.body)
@@ -256,12 +274,12 @@ class _StmtCanon(ast.NodeTransformer):
             if not isinstance(lit, (ast.Tuple, ast.List)) or not lit.elts or len(lit.elts) > 16:
                 return None
             if isinstance(st.target, ast.Name):
-                if not all(isinstance(e, (ast.Name, ast.Constant)) for e in lit.elts):
+                if not all(_pure_elem(e) for e in lit.elts):
                     return None
                 items = [{st.target.id: e} for e in lit.elts]
             elif isinstance(st.target, ast.Tuple) and all(isinstance(e, ast.Name) for e in st.target.elts):
                 n = len(st.target.elts)
-                if not all(isinstance(e, (ast.Tuple, ast.List)) and len(e.elts) == n and all(isinstance(x, (ast.Name, ast.Constant)) for x in e.elts) for e in lit.elts):
+                if not all(isinstance(e, (ast.Tuple, ast.List)) and len(e.elts) == n and all(_pure_elem(x) for x in e.elts) for e in lit.elts):
                     return None
                 items = [{t.id: x for t, x in zip(st.target.elts, e.elts)} for e in lit.elts]
             else:
@@ -276,6 +294,19 @@ class _StmtCanon(ast.NodeTransformer):
             for s in _subst(st.body, m):
                 out.append(_fold_const_attr(s))
         return out
+
+
+def _pure_elem(e) -> bool:
+    """an element of a table that may be substituted textually where the loop variable is used: a name, a constant, an
+    attribute chain on a name (a bound-method reference), or a closed lambda"""
+    if isinstance(e, (ast.Name, ast.Constant)) or _closed_lambda(e):
+        return True
+    if isinstance(e, ast.Attribute):
+        v = e
+        while isinstance(v, ast.Attribute):
+            v = v.value
+        return isinstance(v, ast.Name)
+    return False
 
 
 def _first_evaluated_walrus(e):
